@@ -352,8 +352,10 @@ type target struct {
 	token gen.Ref
 	inst  *actors.Inst
 	node  gen.Atom
-	mu    sync.Mutex
-	got   []string // regular messages and exit signals seen by the target
+	// how the survivor calls the registered name and the event (differs under an atom mapping)
+	nameA, eventA gen.Atom
+	mu            sync.Mutex
+	got           []string // regular messages and exit signals seen by the target
 }
 
 func (t *target) value(kind string) any {
@@ -361,11 +363,11 @@ func (t *target) value(kind string) any {
 	case "pid":
 		return t.pid
 	case "name":
-		return gen.ProcessID{Name: tgtName, Node: t.node}
+		return gen.ProcessID{Name: t.nameA, Node: t.node}
 	case "alias":
 		return t.alias
 	case "event":
-		return gen.Event{Name: evName, Node: t.node}
+		return gen.Event{Name: t.eventA, Node: t.node}
 	case "node":
 		return t.node
 	}
@@ -386,7 +388,7 @@ type callOut struct {
 
 // spawnTarget spawns the target process (registered name) and lets it create its alias and event
 func spawnTarget(node *hk.HNode, label string) (*target, error) {
-	t := &target{node: node.Name()}
+	t := &target{node: node.Name(), nameA: tgtName, eventA: evName}
 	f, inst := actors.NewProbe(label, &actors.Hooks{
 		Init: func(p *actors.Probe, args ...any) error {
 			p.SetTrapExit(true) // a stale exit signal that got through is logged, not fatal
@@ -530,6 +532,7 @@ type pair struct {
 	// dialer: "A" = survivor dialed the victim (relay in front of B), "B" = victim dialed the survivor (relay in front of A)
 	dialer string
 	label  string
+	opt    pairOpt
 	joins0 int64          // joinCount of the acceptor port right after the connection was established
 	conn0  gen.RemoteNode // the survivor's connection with the victim as established by connect()
 }
@@ -602,8 +605,12 @@ func nodeName(prefix string) string {
 }
 
 func startVictim(name string, reg uint16) (*hk.HNode, *warnCounter, error) {
+	return startVictimPool(name, reg, 1)
+}
+
+func startVictimPool(name string, reg uint16, pool int) (*hk.HNode, *warnCounter, error) {
 	w := &warnCounter{}
-	n, err := hk.StartNode(hk.NodeCfg{Name: name, Network: true, RegPort: reg, PoolSize: 1, Tweak: func(o *gen.NodeOptions) {
+	n, err := hk.StartNode(hk.NodeCfg{Name: name, Network: true, RegPort: reg, PoolSize: pool, Tweak: func(o *gen.NodeOptions) {
 		o.Log.Level = gen.LogLevelTrace
 		if len(o.Log.Loggers) < 2 {
 			o.Log.Loggers = append(o.Log.Loggers, gen.Logger{Name: "c14warn", Logger: w})
@@ -619,8 +626,29 @@ func newPair(reg uint16, label string, dialer string, f *faultCtl) (*pair, error
 // newPairWith: full=false leaves spawning the victim's processes and connecting to the caller.
 // skew: "same" = both nodes carry the same creation stamp (started in the same second),
 // "diff" = the victim is started in a later second than the survivor, "" = as it comes
-func newPairWith(reg uint16, label string, dialer string, f *faultCtl, full bool, skew string) (*pair, error) {
+// pairOpt: optional features of a pair
+type pairOpt struct {
+	Pool     int  // TCP links per connection (default 1)
+	MapNames bool // the survivor's side of the connection carries an atom mapping renaming the target's name and event
+	Direct   bool // no relay: the dialer dials the acceptor directly (needed for pools > 1)
+}
+
+// names the survivor uses for the victim's registered name and event when the connection carries an atom mapping
+const tgtNameA = gen.Atom("c14target_a")
+const evNameA = gen.Atom("c14event_a")
+
+func survivorMapping() map[gen.Atom]gen.Atom {
+	return map[gen.Atom]gen.Atom{tgtNameA: tgtName, evNameA: evName}
+}
+
+func newPairWith(reg uint16, label string, dialer string, f *faultCtl, full bool, skew string, opts ...pairOpt) (*pair, error) {
 	p := &pair{reg: reg, f: f, dialer: dialer, label: label}
+	if len(opts) > 0 {
+		p.opt = opts[0]
+	}
+	if p.opt.Pool == 0 {
+		p.opt.Pool = 1
+	}
 	if p.f == nil {
 		p.f = &faultCtl{}
 	}
@@ -629,7 +657,14 @@ func newPairWith(reg uint16, label string, dialer string, f *faultCtl, full bool
 	}
 	var err error
 	for attempt := 0; ; attempt++ {
-		p.A, err = hk.StartNode(hk.NodeCfg{Name: nodeName("a"), Network: true, RegPort: reg, PoolSize: 1})
+		p.A, err = hk.StartNode(hk.NodeCfg{Name: nodeName("a"), Network: true, RegPort: reg, PoolSize: p.opt.Pool, Tweak: func(o *gen.NodeOptions) {
+			if p.opt.MapNames && p.dialer == "B" {
+				// the victim dials: the mapping of the survivor's side lives in its acceptor
+				for i := range o.Network.Acceptors {
+					o.Network.Acceptors[i].AtomMapping = survivorMapping()
+				}
+			}
+		}})
 		if err != nil {
 			return nil, fmt.Errorf("start A: %w", err)
 		}
@@ -638,7 +673,7 @@ func newPairWith(reg uint16, label string, dialer string, f *faultCtl, full bool
 				time.Sleep(10 * time.Millisecond)
 			}
 		}
-		p.B, p.warnB, err = startVictim(nodeName("b"), reg)
+		p.B, p.warnB, err = startVictimPool(nodeName("b"), reg, p.opt.Pool)
 		if err != nil {
 			p.A.StopForce()
 			return nil, fmt.Errorf("start B: %w", err)
@@ -679,6 +714,9 @@ func newPairWith(reg uint16, label string, dialer string, f *faultCtl, full bool
 		p.close()
 		return nil, fmt.Errorf("spawn target: %w", err)
 	}
+	if p.opt.MapNames {
+		p.tgt.nameA, p.tgt.eventA = tgtNameA, evNameA
+	}
 	if err := p.connect(); err != nil {
 		p.close()
 		return nil, err
@@ -710,16 +748,24 @@ func (p *pair) connect() error {
 	if p.dialer == "B" {
 		from, to = p.B, p.A
 	}
-	p.R, err = relay.Start(relay.Config{
-		Target: fmt.Sprintf("127.0.0.1:%d", to.Port),
-		Chunk:  p.f.chunk,
-		Delay:  p.f.delay,
-	})
-	if err != nil {
-		return fmt.Errorf("relay: %w", err)
+	port := to.Port
+	if !p.opt.Direct {
+		p.R, err = relay.Start(relay.Config{
+			Target: fmt.Sprintf("127.0.0.1:%d", to.Port),
+			Chunk:  p.f.chunk,
+			Delay:  p.f.delay,
+		})
+		if err != nil {
+			return fmt.Errorf("relay: %w", err)
+		}
+		p.f.r.Store(p.R)
+		port = p.R.Port
 	}
-	p.f.r.Store(p.R)
-	if _, err := hk.ConnectVia(from, to, "127.0.0.1", p.R.Port); err != nil {
+	route := gen.NetworkRoute{Route: gen.Route{Host: "127.0.0.1", Port: port}, Cookie: to.Cookie}
+	if p.opt.MapNames && p.dialer == "A" {
+		route.AtomMapping = survivorMapping()
+	}
+	if _, err := from.Network().GetNodeWithRoute(to.Name(), route); err != nil {
 		return fmt.Errorf("connect: %w", err)
 	}
 	if !hk.WaitUntil(5*time.Second, func() bool { return connected(p.A, p.B.Name()) && connected(p.B, p.A.Name()) }) {
@@ -736,6 +782,12 @@ func (p *pair) connect() error {
 func (p *pair) close() {
 	if p.R != nil {
 		p.R.Close()
+	}
+	if p.A != nil {
+		forgetSockets(p.A.Port)
+	}
+	if p.B != nil {
+		forgetSockets(p.B.Port)
 	}
 	if p.B != nil {
 		p.B.StopForce()
@@ -783,7 +835,26 @@ func installJoinObserver() {
 		}
 		v, _ := joinCounts.LoadOrStore(a.Port, new(atomic.Int64))
 		v.(*atomic.Int64).Add(1)
+		joinedMu.Lock()
+		joined[a.Port] = append(joined[a.Port], c)
+		joinedMu.Unlock()
 	})
+}
+
+// sockets joined to connections, per local port (the acceptor side of a pooled link has the acceptor's port)
+var joinedMu sync.Mutex
+var joined = map[int][]net.Conn{}
+
+func joinedSockets(port uint16) []net.Conn {
+	joinedMu.Lock()
+	defer joinedMu.Unlock()
+	return append([]net.Conn(nil), joined[int(port)]...)
+}
+
+func forgetSockets(port uint16) {
+	joinedMu.Lock()
+	delete(joined, int(port))
+	joinedMu.Unlock()
 }
 
 func joinCount(port uint16) int64 {
